@@ -2,7 +2,7 @@
 
 use std::collections::HashMap;
 use std::sync::Arc;
-use std::sync::atomic::AtomicUsize;
+use std::sync::atomic::{AtomicBool, AtomicUsize};
 
 use futures_util::{Stream, StreamExt};
 use p2panda_core::Topic;
@@ -190,6 +190,16 @@ impl Gossip {
                 from_gossip_tx.clone(),
                 guard,
             ));
+        }
+
+        // The last handle of the previous session might just be in the middle of being dropped:
+        // the counter is zero already but the "unsubscribe" message wasn't sent yet. It is
+        // addressed by topic only and would end our new session if it arrived after our
+        // "subscribe", so we wait for it to be out first.
+        if let Some((_, _, guard)) = senders.get(&topic) {
+            while !guard.has_unsubscribed() {
+                tokio::task::yield_now().await;
+            }
         }
 
         let inner = self.inner.read().await;
@@ -426,6 +436,7 @@ struct TopicDropGuard {
     counter: Arc<AtomicUsize>,
     actor_ref: ActorRef<ToGossipManager>,
     ignore_drop: bool,
+    unsubscribed: Arc<AtomicBool>,
 }
 
 /// Initial value the reference counter starts with.
@@ -448,6 +459,7 @@ impl TopicDropGuard {
             counter: Arc::new(AtomicUsize::new(INITIAL_COUNTER)),
             actor_ref,
             ignore_drop: false,
+            unsubscribed: Arc::new(AtomicBool::new(false)),
         }
     }
 
@@ -479,7 +491,13 @@ impl TopicDropGuard {
             counter: self.counter.clone(),
             actor_ref: self.actor_ref.clone(),
             ignore_drop: false,
+            unsubscribed: self.unsubscribed.clone(),
         })
+    }
+
+    /// Returns true if the last reference was dropped and the "unsubscribe" message is out.
+    fn has_unsubscribed(&self) -> bool {
+        self.unsubscribed.load(std::sync::atomic::Ordering::SeqCst)
     }
 
     /// Clone guard, but don't increment reference counter.
@@ -492,6 +510,7 @@ impl TopicDropGuard {
             counter: self.counter.clone(),
             actor_ref: self.actor_ref.clone(),
             ignore_drop: true,
+            unsubscribed: self.unsubscribed.clone(),
         }
     }
 }
@@ -514,6 +533,7 @@ impl Clone for TopicDropGuard {
             counter: self.counter.clone(),
             actor_ref: self.actor_ref.clone(),
             ignore_drop: false,
+            unsubscribed: self.unsubscribed.clone(),
         }
     }
 }
@@ -555,6 +575,9 @@ impl Drop for TopicDropGuard {
             let _ = self
                 .actor_ref
                 .send_message(ToGossipManager::Unsubscribe(self.topic));
+
+            self.unsubscribed
+                .store(true, std::sync::atomic::Ordering::SeqCst);
         }
     }
 }
